@@ -146,7 +146,7 @@ Proof.
     rewrite E. cbn [bind]. exists (sa_SG g). split; [reflexivity|].
     cbn [sa_wf_shape sa_num_verts sa_num_tris sa_get_verts sa_get_tris sa_get_uvs sa_g_get_tris snd].
     split.
-    { apply sa_wf_g_parts. rewrite A1, A2, A4, A5. cbn [sa_geom_new sa_g_hc sa_g_cols length].
+    { apply sa_wf_g_parts. rewrite A1, A2, A4, A5. unfold sa_cols_after. cbn [sa_geom_new sa_g_hc sa_g_cols length].
       split; [rewrite firstn_length; pose proof (sa_nv_of_le verts) as HH; unfold nv; lia|].
       split; [exact A11|]. split; [apply A14; right; split; reflexivity|]. split; [reflexivity | exact A10]. }
     split; [exact A1|]. split; [exact A6|].
@@ -173,41 +173,41 @@ Proof.
   rewrite Z in *. split; [exact A2|]. rewrite A6. reflexivity.
 Qed.
 
-(* NiGeometryData::Create does not touch the colour array: the invariant survives only without colours *)
+(* NiGeometryData::Create keeps the colour array at the new count (cut, or padded with white) *)
 Theorem sa_g_set_verts_recreate g verts :
   sa_wf_g g -> length verts <> N.to_nat (sa_g_nv g) ->
   let nv := sa_nv_of verts in
   exists g', sa_g_api_set_verts bsphere gtan g verts = Ok g' /\ sa_g_nv g' = nv
     /\ sa_g_verts g' = firstn (N.to_nat nv) verts
-    /\ sa_g_hc g' = sa_g_hc g /\ sa_g_cols g' = sa_g_cols g /\ sa_g_tris g' = sa_g_tris g /\ sa_g_nt g' = sa_g_nt g
+    /\ sa_g_hc g' = sa_g_hc g /\ sa_g_cols g' = sa_cols_after g nv /\ sa_g_tris g' = sa_g_tris g /\ sa_g_nt g' = sa_g_nt g
     /\ sa_g_get_uvs g' = None /\ sa_g_get_normals g' = None /\ sa_g_get_tangents g' = None
-    /\ (sa_g_hc g = false -> sa_wf_g g').
+    /\ sa_wf_g g'.
 Proof.
   intros W L nv. unfold sa_g_api_set_verts. rewrite (sa_vlen_neqb _ _ L). cbn [negb].
   destruct (sa_g_create_gen_spec bsphere gtan g verts None None None)
     as [g' [E [A1 [A2 [A3 [A4 [A5 [A6 [A7 [A8 [A9 [A10 [A11 [A12 [A13 A14]]]]]]]]]]]]]]].
-  fold nv in A1, A2, A11, A12, A13, A14. exists g'. split; [exact E|].
+  fold nv in A1, A2, A5, A11, A12, A13, A14. exists g'. split; [exact E|].
   split; [exact A1|]. split; [exact A2|]. split; [exact A4|]. split; [exact A5|]. split; [exact A9|]. split; [exact A6|].
   split; [exact A12|]. destruct A13 as [N1 N2]. split; [exact N1|]. split; [exact N2|].
-  intros HC. apply sa_wf_g_parts. rewrite A1, A2, A4, A5, HC.
-  destruct W as [_ [_ [_ [_ [WC _]]]]]. rewrite HC in WC.
+  apply sa_wf_g_parts. rewrite A1, A2, A4, A5.
   split; [rewrite firstn_length; pose proof (sa_nv_of_le verts); unfold nv; lia|].
-  split; [exact A11|]. split; [apply A14; left; reflexivity|]. split; [exact WC | exact A10].
+  split; [exact A11|]. split; [apply A14; left; reflexivity|]. split; [|exact A10].
+  unfold sa_cols_after. destruct (sa_g_hc g); [apply sa_vresize_length | reflexivity].
 Qed.
 
 End WithOpaque.
 
-(* the invariant "every per-vertex array has the vertex count" is NOT kept when colours are present *)
+(* the former counterexample (3 coloured vertices, SetVertsForShape with 2): two colours now *)
 Definition sa_cex_g : sa_geom :=
   sa_mkG 3 true false true (0, 0, 0, 0) [sa_v3z; sa_v3z; sa_v3z] [] [] [] [sa_c4one; sa_c4one; sa_c4one] 0 [] 0 0 false [] None.
-Theorem sa_g_set_verts_recreate_wf_refuted :
-  exists g verts g', sa_wf_g g
-    /\ sa_g_api_set_verts sa_unk_bsphere sa_unk_gtan g verts = Ok g'
-    /\ sa_g_nv g' = 2 /\ sa_g_get_colors g' = Some [sa_c4one; sa_c4one; sa_c4one] /\ ~ sa_wf_g g'.
+Example sa_g_set_verts_recreate_colors_ex :
+  exists g', sa_wf_g sa_cex_g
+    /\ sa_g_api_set_verts sa_unk_bsphere sa_unk_gtan sa_cex_g [sa_v3z; sa_v3z] = Ok g'
+    /\ sa_g_nv g' = 2 /\ sa_g_get_colors g' = Some [sa_c4one; sa_c4one] /\ sa_wf_g g'.
 Proof.
-  exists sa_cex_g, [sa_v3z; sa_v3z]. eexists. split; [unfold sa_wf_g; simpl; repeat split|].
+  eexists. split; [unfold sa_wf_g; simpl; repeat split|].
   split; [vm_compute; reflexivity|]. split; [reflexivity|]. split; [reflexivity|].
-  unfold sa_wf_g. simpl. intros [_ [_ [_ [_ [H _]]]]]. discriminate.
+  unfold sa_wf_g. simpl. repeat split.
 Qed.
 
 (* ---------- save + reload ---------- *)
@@ -228,23 +228,17 @@ Proof.
   intros H. apply (f_equal (fun r => match r with Ok x => x | _ => s end)) in H. cbv beta iota in H. rewrite <- H. repeat split.
 Qed.
 
-(* the shape eye data makes CalcDataSizes shift an int by 36 bits: undefined behaviour *)
-Lemma sa_bs_calc_data_sizes_eye_faults ver s :
-  sa_bs_has s sa_VF_EYEDATA = true -> sa_bs_calc_data_sizes ver s = Fault.
+(* since the mask of SetAttributeOffset is built in 64 bits CalcDataSizes is total (eye data included) *)
+Lemma sa_attr_loop_total : forall sizes va d v, exists d' v', sa_attr_loop sizes va d v = Ok (d', v').
 Proof.
-  intros H. unfold sa_bs_calc_data_sizes, sa_bs_attr_sizes. rewrite H.
-  set (d0 := N.land (sa_b_desc s) sa_DESC_MASK_OFFSET).
-  assert (G : forall sizes va d v, (va + N.of_nat (length sizes) = 8)%N ->
-            sa_attr_loop (sizes ++ [1]) va d v = Fault).
-  { induction sizes as [|sz rest IH]; intros va d v HL.
-    - simpl in HL. assert (va = 8) by lia. subst. reflexivity.
-    - cbn [app sa_attr_loop]. destruct (sz =? 0).
-      + apply IH. simpl in HL. lia.
-      + unfold sa_set_attr_offset. destruct (va =? 0); cbn [bind]; [apply IH; simpl in HL; lia|].
-        destruct (32 <=? 4 * va + 4); cbn [bind]; [reflexivity | apply IH; simpl in HL; lia]. }
-  match goal with |- bind (sa_attr_loop ?l 0 d0 0) _ = Fault =>
-    change l with (firstn 8 l ++ [1]) end.
-  rewrite G; reflexivity.
+  induction sizes as [|sz rest IH]; intros va d v; cbn [sa_attr_loop]; [eauto|].
+  destruct (sz =? 0); [apply IH|]. unfold sa_set_attr_offset. destruct (va =? 0); cbn [bind]; apply IH.
+Qed.
+Lemma sa_bs_calc_data_sizes_total ver s : exists s1, sa_bs_calc_data_sizes ver s = Ok s1.
+Proof.
+  unfold sa_bs_calc_data_sizes.
+  destruct (sa_attr_loop_total (sa_bs_attr_sizes ver s) 0 (N.land (sa_b_desc s) sa_DESC_MASK_OFFSET) 0) as [d' [v' E]].
+  rewrite E. cbn [bind]. eauto.
 Qed.
 
 Lemma sa_bs_reload_spec ver s :
